@@ -71,6 +71,13 @@ void SoPlexBase<R>::_optimize(volatile bool* interrupt)
          ++_unscaleCalls;
       }
    }
+   // persistent scaling was switched off after a solve that scaled the LP: the LP is the user's again
+   else if(_realLP->isScaled())
+   {
+      _solver.unscaleLPandReloadBasis();
+      _isRealLPScaled = false;
+      ++_unscaleCalls;
+   }
 
    // remember that last solve was in floating-point
    _lastSolveMode = SOLVEMODE_REAL;
